@@ -171,12 +171,30 @@ ADD9 = {
  "C15": " The tls matcher's Caddyfile (nested handshake matchers, repeated lines add up) and the tls handler's certificate selection (repeated serial_number lines add up) are in the tables; a placeholder allow entry of the proxy_protocol handler provisions.",
 }
 
+ADD10 = {
+ "C01": " Every case of the UDP loop's hand-over select queues the datagram in hand, returns its buffer, or leaves the loop with an error (no datagram disappears from its client's stream).",
+ "C02": " Once a handler has built a reading wrapper on the connection and read through it, every call of next passes a connection that reads through that wrapper.",
+ "C03": " The same wrapper rule for the proxy_protocol handler (bytes the wrapper buffered beyond the header are relayed).",
+ "C04": " The hello handed to the tls sub-matchers carries the connection on every path.",
+ "C06": " On every proper prefix of every message of the verdict tables (cut at the first and last bytes and around every multiple of 255) a matcher asks for more or says no - never yes where the whole says no, never no where the whole says yes; the frozen flag is written by freeze and unfreeze only.",
+ "C07": " A ClientHello spread over two or three handshake records is handed to the parser whole (as crypto/tls reassembles it); a missing or incomplete later record answers need-more, a record of another type in between answers no. The rules follow the 4-byte message header to whichever side of the Match/parser interface takes it off.",
+ "C08": " What PrepareRequest and similar calls write into (a replacer) is created in the call that uses it, not once per matcher; a sync.Pool is shared state like any other package-level variable.",
+ "C09": " The address result of ReadFrom is tested for nil before a method is called on it; an empty datagram does not end the association (bytes.Reader's EOF on zero bytes modelled); every delete from the association table is guarded by a comparison of the entry with the connection that sent the notice; the hand-over select loses no datagram; what goes back into the datagram pool is what came out of it, at full length.",
+ "C10": " Provisioning uses a peer found in the table as found and builds a new one from the dial address only; all operations on the peer table spell the key the same way.",
+ "C11": " KNOWN FINDING (C11.R17, recorded in known_findings.json, not repaired): the connection count is raised after the dial, so max_connections is not enforced for connections arriving at the same moment; the check prints it as KNOWN-FINDING and reports any other violation as before.",
+ "C12": " Every rule's mask length, address length and ones agree (a one-address range is /32 on a 4-byte or /128 on a 16-byte address); ip_hash keys on the address the PROXY header put in place.",
+ "C13": " The buffer given to a new connection by the listener wrapper is proven empty; the tee handler leaves its pipe to the reading side.",
+ "C14": " The regexp, dns, rdp and winbox patterns keep their counted repetitions (caddy's replacer modelled as implemented: ReplaceAll removes unknown braces, ReplaceKnown keeps them); postgres SSLRequest codes with a declared length other than 8 are in the tables.",
+ "C15": " alpn lines inside a tls matcher block add up (also through the tls matcher's own parser).",
+ "C17": " What each limiter is asked for is summed over all WaitN calls of a read, for reads of 1024, 2048 and 4096 bytes.",
+}
+
 checks = []
 for p in props:
     if p["id"] not in CLAIMS:
         continue
     tech, text, ref = CLAIMS[p["id"]]
-    text = text + ADD6.get(p["id"], "") + ADD7.get(p["id"], "") + ADD8.get(p["id"], "") + ADD9.get(p["id"], "")
+    text = text + ADD6.get(p["id"], "") + ADD7.get(p["id"], "") + ADD8.get(p["id"], "") + ADD9.get(p["id"], "") + ADD10.get(p["id"], "")
     checks.append({
         "property_id": p["id"],
         "quick_cmd": "./run.sh %s quick" % p["id"],
